@@ -257,6 +257,7 @@ def utf8_decode(ctx, b):
         ctx.ghost[key] = True
         ctx.axiom(z3.Implies(is_ascii(ctx, b), z3.And(UTF8Ok(b), t == b)), "ASCII octets decode to themselves")
         ctx.axiom(z3.Implies(UTF8Ok(b), UTF8(t) == b), "UTF8(UTF8Dec(b)) = b for well-formed b")
+        ctx.add(z3.Implies(z3.And(UTF8Ok(b), z3.InRe(t, ASCII_RE)), z3.And(b == t, z3.InRe(b, ASCII_RE))))
         ctx.axiom(z3.Implies(UTF8Ok(b), z3.And(z3.Length(t) <= z3.Length(b), (z3.Length(t) == 0) == (z3.Length(b) == 0))),
                   "|UTF8Dec(b)| <= |b|")
     return t
